@@ -94,6 +94,8 @@ type e3Scenario struct {
 	ExpectFail []int    `json:"expect_fail"`
 	Schedule   []int    `json:"schedule"`
 	NoPrune    bool     `json:"no_prune"`
+	Shard      int      `json:"shard"`
+	Shards     int      `json:"shards"`
 }
 
 type e3Failure struct {
